@@ -408,29 +408,33 @@ pub(crate) fn validate_channelmodes<'a>(
     })
 }
 
-fn starts_single_wilcards<'a>(pattern: &'a str, text: &'a str) -> bool {
-    if pattern.len() <= text.len() {
-        pattern
-            .bytes()
-            .enumerate()
-            .all(|(i, c)| c == b'?' || c == text.as_bytes()[i])
-    } else {
-        false
-    }
+fn starts_single_wilcards(pattern: &[char], text: &[char]) -> bool {
+    pattern.len() <= text.len()
+        && pattern
+            .iter()
+            .zip(text.iter())
+            .all(|(p, c)| *p == '?' || p == c)
 }
 
 pub(crate) fn match_wildcard<'a>(pattern: &'a str, text: &'a str) -> bool {
-    let mut pat = pattern;
-    let mut t = text;
+    // match on characters, not on bytes: '?' is exactly one character
+    let pattern_chars = pattern.chars().collect::<Vec<_>>();
+    let text_chars = text.chars().collect::<Vec<_>>();
+    let mut pat = pattern_chars.as_slice();
+    let mut t = text_chars.as_slice();
     let mut asterisk = false;
     while !pat.is_empty() {
-        let (newpat, m, cur_ast) = if let Some(i) = pat.find('*') {
+        let (newpat, m, cur_ast) = if let Some(i) = pat.iter().position(|c| *c == '*') {
             (&pat[i + 1..], &pat[..i], true)
         } else {
-            (&pat[pat.len()..pat.len()], pat, false)
+            (&pat[pat.len()..], pat, false)
         };
 
         if !m.is_empty() {
+            // no match if this part of pattern is longer than rest of the text
+            if m.len() > t.len() {
+                return false;
+            }
             if !asterisk {
                 // if first match
                 if !starts_single_wilcards(m, t) {
@@ -456,7 +460,7 @@ pub(crate) fn match_wildcard<'a>(pattern: &'a str, text: &'a str) -> bool {
                 if !starts_single_wilcards(m, &t[t.len() - m.len()..]) {
                     return false;
                 }
-                t = &t[t.len()..t.len()];
+                t = &t[t.len()..];
             }
         }
 
@@ -464,7 +468,7 @@ pub(crate) fn match_wildcard<'a>(pattern: &'a str, text: &'a str) -> bool {
         pat = newpat;
     }
     // if last character in pattern is '*' or text has been fully consumed
-    (!pattern.is_empty() && pattern.as_bytes()[pattern.len() - 1] == b'*') || t.is_empty()
+    pattern_chars.last() == Some(&'*') || t.is_empty()
 }
 
 // normalize source mask - for example '*' to '*!*@*'
